@@ -59,3 +59,63 @@ def oracle(c, obs):
 
 def classify(c, obs, why):
     return None
+
+
+def run(res, a):
+    import os, re, sys
+    res.rule = RULE + ("; additionally (implementation side only): two writers across a session switch (writer A inside its socket write, "
+                       "writer B waiting for the lock, then the session is replaced — from no session and from an older session), and a "
+                       "stress run of writers against the connection's reader decrypting incoming frames on the same session")
+    res.assumptions = ASSUMPTIONS + ["the session-switch and reader-versus-writer runs have no model counterpart (the model has one session and no reader); they are judged by the oracle only"]
+    core.build_everything(res, ID, extra_files=EXTRA_FILES)
+    res.trusted += TRUSTED
+    mod = sys.modules[__name__]
+    rng = core.rng_for(ID, res.seed)
+    if a.replay:
+        rep = json.load(open(a.replay))
+        if rep["case"].split(" ")[0] in ("cwsw", "cwrace"):
+            extra(res, [{"id": "replay", "line": rep["case"], "kind": rep["case"].split(" ")[0]}])
+        else:
+            core.run_correspondence(res, FAMILY, [{"id": "replay", "line": rep["case"], "kind": "replay"}], mod)
+        return
+    core.run_correspondence(res, FAMILY, core.load_corpus(FAMILY) + gen(rng, a.tier), mod)
+    cases = []
+    for i in range(4 if a.tier == "quick" else 24):
+        old = rb(rng, 32) if i % 2 else "-"
+        cases.append({"id": "sw%d" % i, "kind": "cwsw", "line": "cwsw %s %s %s %s" % (old, rb(rng, 32), "aa" + rb(rng, rng.choice([4, 1100])), "bb" + rb(rng, rng.choice([9, 2100])))})
+    for i in range(4 if a.tier == "quick" else 16):
+        cases.append({"id": "race%d" % i, "kind": "cwrace", "line": "cwrace %s 4 %d %d" % (rb(rng, 32), 300 if a.tier == "quick" else 3000, 2000 if a.tier == "quick" else 20000)})
+    extra(res, cases)
+
+
+def extra(res, cases):
+    import os, re
+    lines = ["%s %s" % (c["id"], c["line"]) for c in cases]
+    go = core.shard_run(os.path.join(core.BUILD, "hcdrv"), FAMILY, lines, group=lambda l: l.split(" ")[0])
+    bad = 0
+    for c in cases:
+        o = go.get(c["id"], "NO-OUTPUT")
+        res.cases += 1
+        h = core.sha(c["line"])
+        res.distinct.add(h)
+        res.nontrivial.add(h)
+        res.count("kind:" + c["kind"])
+        res.count("outcome:" + c["kind"] + "/" + o.split(" ")[0][:12])
+        why = None
+        if c["kind"] == "cwsw":
+            m = re.match(r"a=(\S+) b=(\S+)$", o)
+            had_old = c["line"].split(" ")[1] != "-"
+            if not m:
+                why = "harness failure: " + o[:80]
+            elif m.group(2) != "new":
+                why = "a write that waited for the lock while the session was replaced went out %s: the peer, which decrypts in arrival order under the new keys, cannot decrypt it" % (
+                    "in plaintext" if m.group(2) == "plain" else ("under the old session's key and counter" if m.group(2).startswith("old") else "undecryptable"))
+            elif not (m.group(1) == ("old@0" if had_old else "plain")):
+                why = "the write that was in flight before the switch was sent as %s" % m.group(1)
+        elif not o.startswith("ok "):
+            why = "with the connection's reader decrypting incoming frames while writers write: " + o[:100]
+        if why:
+            bad += 1
+            res.violations.append((c["kind"], {"property": ID, "family": FAMILY, "seed": res.seed, "case": c["line"], "implementation_observed": o[:300],
+                                               "required": why, "failing_input_found": True, "replay": "python3 tools/check.py C08 --replay <this file>"}))
+    res.obligations.append(("implementation-side runs: writes across a session switch, writers against the reader", bad == 0, "%d runs, %d failing" % (len(cases), bad)))
